@@ -204,3 +204,143 @@ func runKeyNorm(p *core.Prog) *core.Result {
 }
 
 var _ = types.Typ
+
+// R-TOMBSTONE: live iteration under deletion. A removed entry stays reachable from iterators parked
+// on it: it is marked by key == nil and keeps its iterPrev link, and next() walks back over *all*
+// consecutive tombstones to the nearest live predecessor.
+var Tombstone = &core.Rule{Name: "R-TOMBSTONE", Run: runTombstone,
+	Doc: "(a) in orderedMapIter.next the iterPrev step is inside a loop controlled by a key == nil test; (b) orderedMap.remove marks the found entry with key = nil and never overwrites that entry's own iterPrev; (c) orderedMap.clear marks every entry with key = nil inside its loop"}
+
+func runTombstone(p *core.Prog) *core.Result {
+	res := core.NewResult("R-TOMBSTONE", 4)
+	fKey, err := p.Field(core.GojaPath, "mapEntry", "key")
+	if err != nil {
+		return res.Fail(err)
+	}
+	fPrev, err := p.Field(core.GojaPath, "mapEntry", "iterPrev")
+	if err != nil {
+		return res.Fail(err)
+	}
+	next, err := p.GojaMethod("orderedMapIter", "next")
+	if err != nil {
+		return res.Fail(err)
+	}
+	remove, err := p.GojaMethod("orderedMap", "remove")
+	if err != nil {
+		return res.Fail(err)
+	}
+	clear, err := p.GojaMethod("orderedMap", "clear")
+	if err != nil {
+		return res.Fail(err)
+	}
+	inCycle := func(b *ssa.BasicBlock) bool {
+		for _, s := range b.Succs {
+			if core.Reaches(s, b) {
+				return true
+			}
+		}
+		return false
+	}
+	// (a)
+	{
+		var step ssa.Instruction
+		looped, keyed := false, false
+		core.AllInstrs(next, func(in ssa.Instruction) {
+			ld, ok := in.(*ssa.UnOp)
+			if !ok || ld.Op != token.MUL {
+				return
+			}
+			fa, ok := ld.X.(*ssa.FieldAddr)
+			if !ok || core.FieldOf(fa) != fPrev {
+				return
+			}
+			step = in
+			if inCycle(ld.Block()) {
+				looped = true
+				for _, cp := range core.ControllingConds(ld.Block()) {
+					if x, _, ok := core.IsNilCompare(cp.Cond); ok {
+						if kl, ok := x.(*ssa.UnOp); ok {
+							if kfa, ok := kl.X.(*ssa.FieldAddr); ok && core.FieldOf(kfa) == fKey {
+								keyed = true
+							}
+						}
+					}
+				}
+			}
+		})
+		key := "(*orderedMapIter).next:walks back over all tombstones"
+		switch {
+		case step == nil:
+			res.Bad(key, p.Pos(next.Pos()), "next() never follows iterPrev: an iterator parked on a removed entry cannot find its way back into the list")
+		case !looped || !keyed:
+			res.Bad(key, p.Pos(step.Pos()), "the iterPrev step is not inside a loop controlled by `key == nil`: after two adjacent entries were removed (the earlier one last) the iterator lands on a tombstone, follows its stale iterNext and yields entries twice or skips live ones")
+		default:
+			res.OK(key, p.Pos(step.Pos()), "iterPrev step in a loop controlled by key == nil")
+		}
+	}
+	// (b)
+	{
+		var entry ssa.Value
+		core.AllInstrs(remove, func(in ssa.Instruction) {
+			if ex, ok := in.(*ssa.Extract); ok && ex.Index == 1 {
+				if c, ok := ex.Tuple.(*ssa.Call); ok && c.Call.StaticCallee() != nil && c.Call.StaticCallee().Name() == "lookup" {
+					entry = ex
+				}
+			}
+		})
+		if entry == nil {
+			return res.Failf("unresolved anchor: entry returned by lookup in orderedMap.remove")
+		}
+		marked := false
+		var clobber ssa.Instruction
+		core.AllInstrs(remove, func(in ssa.Instruction) {
+			st, ok := in.(*ssa.Store)
+			if !ok {
+				return
+			}
+			fa, ok := st.Addr.(*ssa.FieldAddr)
+			if !ok || core.Origin(fa.X) != entry {
+				return
+			}
+			switch core.FieldOf(fa) {
+			case fKey:
+				if c, ok := st.Val.(*ssa.Const); ok && c.IsNil() {
+					marked = true
+				}
+			case fPrev:
+				clobber = in
+			}
+		})
+		if marked {
+			res.OK("(*orderedMap).remove:tombstone mark", p.Pos(remove.Pos()), "entry.key = nil")
+		} else {
+			res.Bad("(*orderedMap).remove:tombstone mark", p.Pos(remove.Pos()), "the removed entry is not marked with key = nil: an iterator parked on it continues from a detached entry")
+		}
+		if clobber == nil {
+			res.OK("(*orderedMap).remove:keeps iterPrev", p.Pos(remove.Pos()), "the removed entry's own iterPrev is left intact")
+		} else {
+			res.Bad("(*orderedMap).remove:keeps iterPrev", p.Pos(clobber.Pos()), "the removed entry's iterPrev is overwritten: iterators parked on it cannot walk back to a live predecessor")
+		}
+	}
+	// (c)
+	{
+		ok := false
+		core.AllInstrs(clear, func(in ssa.Instruction) {
+			st, isSt := in.(*ssa.Store)
+			if !isSt {
+				return
+			}
+			if fa, isFa := st.Addr.(*ssa.FieldAddr); isFa && core.FieldOf(fa) == fKey {
+				if c, isC := st.Val.(*ssa.Const); isC && c.IsNil() && inCycle(st.Block()) {
+					ok = true
+				}
+			}
+		})
+		if ok {
+			res.OK("(*orderedMap).clear:tombstones every entry", p.Pos(clear.Pos()), "key = nil inside the loop over the entries")
+		} else {
+			res.Bad("(*orderedMap).clear:tombstones every entry", p.Pos(clear.Pos()), "clear() does not mark every entry with key = nil: a live iterator keeps yielding entries of the cleared map")
+		}
+	}
+	return res
+}
